@@ -321,3 +321,18 @@ func Report(err error) (eventJSON string, extras map[string]string, panicked str
 	})
 	return
 }
+
+// Exercise runs the read-only observers of the library over err and
+// discards the results: a program logs, reports and inspects an error before
+// it sends it on, and none of that may change the value.
+func Exercise(err error) {
+	if err == nil {
+		return
+	}
+	_ = Fmt("%+v", err)
+	_ = Red("%+v", err)
+	_, _, _ = Report(err)
+	_, _ = AllSafeDetails(err)
+	_ = Accessors(err)
+	_, _ = Encode(err)
+}
